@@ -14,6 +14,7 @@ import itertools
 import math
 import os
 import random
+import zlib
 import tempfile
 from typing import Any
 
@@ -145,7 +146,23 @@ async def execute(ast: list[Any], ext: int) -> list[dict[str, Any]]:
     scopes: dict[int, Any] = {}
     exited: set[int] = set()
 
-    nzero = [0]
+    nzero = [zlib.crc32(repr(ast).encode()) % 4]  # which spelling comes first differs from program to program
+    stream: list[Any] = []
+
+    def buffered_stream() -> Any:
+        if not stream:
+            from easynetwork.lowlevel.api_async.backend._asyncio.stream.socket import StreamReaderBufferedProtocol
+
+            from ..recvbuffer import _Stub
+
+            proto = StreamReaderBufferedProtocol(loop=loop)
+            proto.connection_made(_Stub())
+            buf = memoryview(proto.get_buffer(-1))
+            n = min(len(buf), 2048)
+            buf[:n] = b"x" * n
+            proto.buffer_updated(n)
+            stream.append(proto)
+        return stream[0]
 
     def tick() -> int:
         return int(round((loop.time() - t0) / TICK))
@@ -157,14 +174,18 @@ async def execute(ast: list[Any], ext: int) -> list[dict[str, Any]]:
         for st in block:
             if st[0] == "sleep":
                 if st[1] == 0:
-                    # a bare checkpoint, in the three spellings the backend offers
+                    # a bare checkpoint, in the three spellings the backend offers - and as the library's stream receive with bytes
+                    # already buffered (the asyncio stream protocol yields once on that path, on purpose: a receive is a checkpoint)
                     nzero[0] += 1
-                    if nzero[0] % 3 == 1:
+                    if nzero[0] % 4 == 1:
                         await backend.coro_yield()
-                    elif nzero[0] % 3 == 2:
+                    elif nzero[0] % 4 == 2:
                         await backend.sleep(0)
-                    else:
+                    elif nzero[0] % 4 == 3:
                         await backend.sleep_until(loop.time() - 1.0)
+                    else:
+                        got = await buffered_stream().receive_data(1)
+                        assert got == b"x", got
                 else:
                     await backend.sleep(st[1] * TICK)
             elif st[0] == "mark":
@@ -463,6 +484,57 @@ async def _sleep_forever_siblings(how: str) -> list[str]:
     return problems
 
 
+async def _receive_is_a_checkpoint(how: str, into: bool) -> list[str]:
+    """receive_data() / receive_data_into() of the asyncio stream protocol with bytes already buffered, as the first thing done inside
+    a scope that is cancelled already: it is abandoned (the library yields once there), and the bytes are still there afterwards."""
+    from easynetwork.lowlevel.api_async.backend._asyncio.backend import AsyncIOBackend
+    from easynetwork.lowlevel.api_async.backend._asyncio.stream.socket import StreamReaderBufferedProtocol
+
+    from ..recvbuffer import _Stub
+
+    backend = AsyncIOBackend()
+    proto = StreamReaderBufferedProtocol(loop=asyncio.get_running_loop())
+    proto.connection_made(_Stub())
+    buf = memoryview(proto.get_buffer(-1))
+    buf[:11] = b"hello world"
+    proto.buffer_updated(11)
+    problems: list[str] = []
+
+    async def receive() -> bytes:
+        if into:
+            b = bytearray(5)
+            n = await proto.receive_data_into(b)
+            return bytes(b[:n])
+        return await proto.receive_data(5)  # type: ignore[no-any-return]
+
+    completed: list[bytes] = []
+    raised = ""
+    scope: Any = None
+    try:
+        if how == "move_on":
+            with backend.move_on_after(0) as scope:
+                completed.append(await receive())
+        elif how == "timeout":
+            with backend.timeout(0) as scope:
+                completed.append(await receive())
+        else:
+            with backend.open_cancel_scope() as scope:
+                scope.cancel()
+                completed.append(await receive())
+    except TimeoutError:
+        raised = "TimeoutError"
+    if completed:
+        problems.append(f"the receive call completed ({completed[0]!r}) inside a scope that was cancelled before it started (cancelled_caught={scope.cancelled_caught()})")
+    elif not scope.cancelled_caught():
+        problems.append("the body was abandoned but the scope does not report that it caught the cancellation")
+    if (how == "timeout") != (raised == "TimeoutError") and not completed:
+        problems.append(f"timeout()/TimeoutError mismatch: raised {raised!r}")
+    rest = await proto.receive_data(1024)
+    if not completed and rest != b"hello world":
+        problems.append(f"bytes were lost by the abandoned receive: {rest!r} left")
+    return problems
+
+
 def _run_one(case: tuple[list[Any], int]) -> list[dict[str, Any]]:
     ast, ext = case
     try:
@@ -551,6 +623,20 @@ def run(chk: Check) -> None:
                 f"two children of a task group in sleep_forever(), each under a scope of its own ({how}): {problems}",
                 {"kind": "sleep_forever_siblings", "how": how},
             )
+    for how in ("move_on", "timeout", "cancel"):
+        for into in (False, True):
+            try:
+                problems = vloop.run(lambda: _receive_is_a_checkpoint(how, into))
+            except vloop.VirtualDeadlock as exc:
+                problems = [str(exc)]
+            chk.traces += 1
+            chk.distinct.add(("receive_is_a_checkpoint", how, into))
+            if problems:
+                chk.violation(
+                    {"kind": "checkpoint", "what": "buffered_stream_receive", "how": how, "into": into},
+                    f"asyncio stream protocol, receive_data{'_into' if into else ''}() with bytes buffered, first thing inside a cancelled scope ({how}): {problems}",
+                    {"kind": "receive_is_a_checkpoint", "how": how, "into": into},
+                )
     # TaskHandle.tla (the Task objects of TaskGroup.start(): join / join_or_cancel / wait): a cancellation that reaches the waiter in the very
     # iteration in which the awaited task finishes still propagates - "an external task cancellation always propagates"
     from ..extras import task_handle
